@@ -206,6 +206,58 @@ def make_case(t, spec, probes=PROBES):
     return c
 
 
+def refused_call_case(g):
+    """DSL calls the implementation refuses: a parameter given both ways, a surplus positional, a missing required
+    argument, an unknown keyword, a constructor the class does not offer.  K only: the generated constructor
+    table with Python's binding rules must refuse the same calls with the same exception class."""
+    r = g.r
+    cls = r.choice(g.CLASSES)
+    kind = r.choice(["both-ways", "surplus", "missing", "unknown-kw", "no-such-ctor", "map-on-non-map"])
+    if kind in ("no-such-ctor", "map-on-non-map"):
+        if kind == "map-on-non-map":
+            cls = r.choice([c for c in g.CLASSES if c not in ("Value", "Key")])
+            ctor = r.choice(["keys_contain", "allowed_keys", "required_keys", "items_contain", "keys_is_instance", "keys_equal_to"])
+        else:
+            ctor = r.choice(["no_such", "equals", "Eq", "IN", "lenght", "Equal_To"])     # (names that are no attribute at all)
+        args, kwargs = [g.atom()], {}
+    else:
+        cls, ctor, args, kwargs = g.dsl_call(cls, None, hostile_p=0.0)
+        args, kwargs = list(args), dict(kwargs)
+        canon = CANON.get(ctor, ctor)
+        params, varpos, varkw = SIGS.get(canon, ([], False, False))
+        if kind == "both-ways":
+            if not params or not args:
+                return None
+            kwargs[params[0]] = g.atom()
+        elif kind == "surplus":
+            if varpos:
+                return None
+            args = args + [g.atom()] * (len(params) - len(args) + 1 - len([k for k in kwargs if k in params]))
+        elif kind == "missing":
+            if not params:
+                return None
+            args, kwargs = [], {}
+        else:
+            if varkw:
+                return None
+            kwargs["no_such_parameter"] = g.atom()
+    c = Case("dsl_refused", {"cls": cls, "ctor": ctor, "args": [enc.enc_val(a) for a in args], "kwargs": {k: enc.enc_val(v) for k, v in kwargs.items()},
+                             "kind": kind})
+    c.py = ("from valida.conditions import *\nimport pathlib\n"
+            f"print({cls}.{ctor}({', '.join([terms.repr_py(a) for a in args] + [k + '=' + terms.repr_py(v) for k, v in kwargs.items()])}))")
+
+    def call():
+        return enc.enc_cond(getattr(getattr(C, cls), ctor)(*args, **kwargs))
+    impl = enc.outcome(call)
+    try:
+        c.ask(["dsl", cls, ctor, [enc.enc_arg(a) for a in args], [[k, enc.enc_arg(v)] for k, v in kwargs.items()]], impl, "dsl")
+    except enc.Unencodable:
+        return None
+    c.features.add(("dsl-refused", kind, impl[0] if impl[0] == "ok" else impl[1]))
+    c.nontrivial = impl[0] != "ok"
+    return c
+
+
 CORPUS = [
     ("bin", "xor", ("leaf", "Value", "gt", [1], {}), ("leaf", "Value", "gt", [1], {})),
     ("bin", "xor", ("bin", "xor", ("leaf", "Value", "gt", [1], {}), ("leaf", "Value", "lt", [4], {})), ("leaf", "Value", "gt", [1], {})),
@@ -243,6 +295,11 @@ def generate(rng, n, tier):
     tries = 0
     while len(cases) < n and tries < 50 * n:
         tries += 1
+        if rng.random() < 0.06:
+            c = refused_call_case(g)
+            if c is not None:
+                cases.append(c)
+            continue
         if todo:
             cls, ctor = todo.pop()
             call = g.dsl_call(cls, ctor, hostile_p=0.05)
